@@ -300,13 +300,85 @@ def identity_on_values(tree):
     return found
 
 
-DETECTORS = {"P1": "one-shot-iterator", "P2": "truthy-bound", "P3": "truncating-dtype", "P4": "identity-on-value"}
+def lossy_fancy_accumulation(tree):
+    """P5: `a[idx] += v` with an index ARRAY that can hold one position twice -- built by concatenating index arrays, or from
+    a list that is appended to term by term -- adds only the LAST contribution for a repeated position (NumPy evaluates
+    a[idx] + v once and stores it back); `np.add.at(a, idx, v)` is the accumulating form."""
+    found = []
+    CONCAT = {"concatenate", "hstack", "append", "r_"}
+    WRAP = {"array", "asarray", "list", "tuple", "fromiter"}
+    for fn in [n for n in ast.walk(tree) if isinstance(n, (ast.FunctionDef, ast.AsyncFunctionDef))]:
+        binds = {}
+        appended = set()
+        for n in _own(fn):
+            if isinstance(n, ast.Assign) and len(n.targets) == 1:
+                t = n.targets[0]
+                if isinstance(t, ast.Name):
+                    binds.setdefault(t.id, []).append(n.value)
+                elif isinstance(t, ast.Tuple):
+                    for e in t.elts:
+                        if isinstance(e, ast.Name):
+                            binds.setdefault(e.id, []).append(n.value)
+            if isinstance(n, ast.AnnAssign) and isinstance(n.target, ast.Name) and n.value is not None:
+                binds.setdefault(n.target.id, []).append(n.value)
+            if isinstance(n, ast.Call) and isinstance(n.func, ast.Attribute) and n.func.attr in ("append", "extend") and isinstance(n.func.value, ast.Name):
+                appended.add(n.func.value.id)
+        params = {a.arg for a in ast.walk(fn.args) if isinstance(a, ast.arg)}
+        # bindings of the enclosing functions are visible to a closure
+        up = getattr(fn, "_parent", None)
+        while up is not None:
+            if isinstance(up, (ast.FunctionDef, ast.AsyncFunctionDef)):
+                for n in _own(up):
+                    if isinstance(n, ast.Assign) and len(n.targets) == 1 and isinstance(n.targets[0], ast.Name) and n.targets[0].id not in binds:
+                        binds.setdefault(n.targets[0].id, []).append(n.value)
+            up = getattr(up, "_parent", None)
+        # an empty list handed to a call is filled by the callee
+        for n in _own(fn):
+            if isinstance(n, ast.Call) and not (isinstance(n.func, ast.Name) and n.func.id in ("len", "list", "tuple", "zip", "sorted", "enumerate")):
+                for a in n.args:
+                    if isinstance(a, ast.Name) and any(isinstance(v, ast.List) and not v.elts for v in binds.get(a.id, [])):
+                        appended.add(a.id)
+
+        def may_repeat(e, depth=0):
+            """why the index expression can contain a position twice, or None"""
+            if depth > 3:
+                return None
+            if isinstance(e, ast.Call):
+                f = (dotted(e.func) or "").split(".")[-1]
+                if f in CONCAT and (dotted(e.func) or "").startswith(("np.", "numpy.")):
+                    return f"np.{f}(..) joins several index arrays"
+                if f in WRAP and e.args:
+                    return may_repeat(e.args[0], depth + 1)
+                if f == "zip" and e.args and isinstance(e.args[0], ast.Starred):
+                    return may_repeat(e.args[0].value, depth + 1)
+                return None
+            if isinstance(e, ast.BinOp) and isinstance(e.op, ast.Add) and any(isinstance(x, (ast.List, ast.ListComp)) for x in (e.left, e.right)):
+                return "two index lists are joined with +"
+            if isinstance(e, ast.Name):
+                if e.id in appended or (e.id in params and e.id in appended):
+                    return f"`{e.id}` is a list filled term by term (append)"
+                for v in binds.get(e.id, []):
+                    r = may_repeat(v, depth + 1)
+                    if r:
+                        return r
+            return None
+
+        for n in _own(fn):
+            if isinstance(n, ast.AugAssign) and isinstance(n.op, (ast.Add, ast.Sub)) and isinstance(n.target, ast.Subscript):
+                why = may_repeat(n.target.slice)
+                if why:
+                    found.append((n.lineno, "P5", fn.name, f"`{src(n)[:60]}`: {why}, so one position can occur twice; a fancy-indexed `+=` keeps only the last contribution for a repeated position (use np.add.at to accumulate)", src(n.target)[:40]))
+    return found
+
+
+DETECTORS = {"P1": "one-shot-iterator", "P2": "truthy-bound", "P3": "truncating-dtype", "P4": "identity-on-value", "P5": "lossy-fancy-accumulation"}
 
 _POSITIVE = {
     "P1": "def gen(xs):\n    for x in xs:\n        yield x\n\ndef build(xs):\n    fns = gen(xs)\n    return lambda x, fns=fns: sum(f(x) for f in fns)\n\ndef rows(elems, qs):\n    it = enumerate(elems)\n    for q in qs:\n        for j, e in it:\n            pass\n",
     "P2": "def check(v):\n    if not (v.lb or v.ub):\n        return None\n    return v\n",
     "P3": "import numpy as np\ndef ev(c, fns, x):\n    return np.fromiter((f(x) for f in fns), dtype=c.dtype, count=len(fns))\n",
     "P4": "_KIND = 'integer'\ndef f(v):\n    return v.domain is _KIND or v.domain is not 'binary'\n",
+    "P5": "import numpy as np\ndef g(res, a, b, terms):\n    res[np.concatenate([a, b])] += 1.0\n    idx = []\n    for t in terms:\n        idx.append(t)\n    res[np.array(idx)] += 2.0\n",
 }
 _NEGATIVE = "import numpy as np\ndef ok(xs, v, c):\n    fns = list(f for f in xs)\n    pairs = enumerate(xs)\n    for i, e in pairs:\n        pass\n    if v.lb is not None and v.ub is None:\n        pass\n    out = np.zeros(3, dtype=float)\n    return lambda x, fns=fns: sum(f(x) for f in fns)\n"
 
@@ -316,7 +388,7 @@ def selfcheck():
         tree = ast.parse(code)
         _parents(tree)
         got = _run(tree, _generator_functions([tree]))
-        n_expected = {"P1": 2, "P2": 2, "P3": 1, "P4": 2}[kind]
+        n_expected = {"P1": 2, "P2": 2, "P3": 1, "P4": 2, "P5": 2}[kind]
         if sum(1 for f in got if f[1] == kind) != n_expected:
             raise AnalysisError(f"pitfall detector {kind} no longer matches its built-in positive example ({len(got)} finding(s))")
     tree = ast.parse(_NEGATIVE)
@@ -332,7 +404,7 @@ def _parents(tree):
             c._parent = n
 
 
-def _run(tree, gens, kinds=("P1", "P2", "P3", "P4")):
+def _run(tree, gens, kinds=("P1", "P2", "P3", "P4", "P5")):
     out = []
     if "P1" in kinds:
         out += one_shot_iterators(tree, gens)
@@ -342,13 +414,15 @@ def _run(tree, gens, kinds=("P1", "P2", "P3", "P4")):
         out += truncating_dtypes(tree)
     if "P4" in kinds:
         out += identity_on_values(tree)
+    if "P5" in kinds:
+        out += lossy_fancy_accumulation(tree)
     return out
 
 
 def report(prog, rep, rule, rels, kinds=("P1", "P2", "P3"), skip_functions=()):
     """One robust obligation per finding in the listed files, plus one (trivial) inventory line."""
     selfcheck()
-    kinds = tuple(kinds) + (("P4",) if "P4" not in kinds else ())
+    kinds = tuple(kinds) + (("P4",) if "P4" not in kinds else ()) + (("P5",) if "P5" not in kinds else ())
     gens = _generator_functions([m.tree for m in prog.modules.values()])
     n_fn = 0
     total = 0
